@@ -94,3 +94,11 @@ GROUPS += [
           props=["C11", "C18", "C17"], assumed=["mps/sections: the line scanner (ILLmps_next_line), the data-line handlers, mps_fill_in, the symbol table constructor and ILLraw_init_rhs/ranges/bounds are ghost-recording stubs with arbitrary results (decided in rdr/mps_scan_*, mps/line_*, rawlp/*); strcmp on the section keywords is CBMC's model"])
     for NL, tier in [(3, "quick"), (4, "thorough")]
 ]
+
+GROUPS += [
+    Group("rawlp/matrix_dup", "rawlp_matrix_dup.c", tus=["rawlp_mpq.c", "eg_lpnum.c", "allocrus.c"], model=MODEL, dfcc=False, export_static=True, unwind=5, kind="bounded", namebuf=512, timeout=900,
+          remove_bodies=["mpq_ILLraw_colname"],
+          bound="one constructed raw problem shape (an unused column before a column with a repeated term), symbolic coefficient values; loops completely unwound",
+          flags=["--no-malloc-may-fail"], functions=["buildMatrix"], props=["C11", "C17"],
+          assumed=["rawlp/matrix_dup: static buildMatrix called through goto-cc --export-file-local-symbols; ILLdata_warn is a counter; ILLraw_colname is a stub that checks its index; the general buildMatrix group (symbolic shapes) exhausts the solver and is not built"]),
+]
